@@ -51,7 +51,10 @@ func replayConcrete(tab *SymTab, h concreteHistory) []string { return replayConc
 
 // replayConcreteR with restart=true re-creates the keeper before every transaction (only the store carries state).
 func replayConcreteR(tab *SymTab, h concreteHistory, restart bool) []string {
-	inst := NewInstance(tab, true)
+	return replayOn(NewInstance(tab, true), h, restart)
+}
+
+func replayOn(inst *Instance, h concreteHistory, restart bool) []string {
 	inst.Materialise(h.Genesis)
 	out := []string{hex.EncodeToString(inst.Commit())[:24]}
 	for _, tx := range h.Txs {
@@ -117,6 +120,11 @@ func cmdDeterminism(tab *SymTab, bw *bufio.Writer, n, depth int, seed int64) {
 		other := hs[(i+1)%len(hs)]
 		replayConcrete(tab, other)
 		reps["after_other"] = replayConcrete(tab, h)
+		// on a keeper object that already executed the other history (its stores are replaced by empty ones)
+		reused := NewInstance(tab, true)
+		replayOn(reused, other, false)
+		reused.Reset()
+		reps["reused_keeper"] = replayOn(reused, h, false)
 		// concurrently with replicas of this and of another history
 		var wg sync.WaitGroup
 		conc := make([][]string, 6)
@@ -144,7 +152,7 @@ func cmdDeterminism(tab *SymTab, bw *bufio.Writer, n, depth int, seed int64) {
 		bw.Write(bz)
 		bw.WriteByte('\n')
 	}
-	fmt.Fprintf(os.Stderr, "determinism: %d histories x %d steps x 8 replicas\n", n, depth)
+	fmt.Fprintf(os.Stderr, "determinism: %d histories x %d steps x 9 replicas\n", n, depth)
 }
 
 func cmdDetChild(tab *SymTab, rd *os.File, bw *bufio.Writer) {
